@@ -178,17 +178,17 @@ def run(tier):
     #   unless the schedule loses that flight (ConvergeRefS)
     _run_tlc(ck, "refS_b1_gen", spec="FairSpec", deviations=dc.OPEN_DEVIATIONS + ["NoFinalFlightResend"],
              net_kinds=ALL_KINDS, net_budget=1, invariants=INV, properties=["ConvergeRefS"], emit="EmitSched",
-             tags=("SCHED",), sinks={"SCHED": sh}, workers=1, server_hvr=True, anti_replay=["S"])
+             tags=("SCHED",), sinks={"SCHED": sh}, workers=1, server_hvr=True, anti_replay=["S"], buffers=["S"])
     #   reference client (anti-replay window) against rustrtc's server
     _run_tlc(ck, "refC_b1", spec="FairSpec", deviations=dc.OPEN_DEVIATIONS, net_kinds=ALL_KINDS, net_budget=1,
-             invariants=INV, properties=["Converge"], anti_replay=["C"])
+             invariants=INV, properties=["Converge"], anti_replay=["C"], buffers=["C"])
     ref_s = [dict(x, id=x["id"] + "-refS", peer="refS") for x in dc.scenarios_from_sched(vlib.read_ndjson(sh), TICK_MS, DEADLINE_MS)]
     ref_c = [dict(x, id=x["id"] + "-refC", peer="refC") for x in singles]
     if thorough:
         sh2 = os.path.join(d, "sched_hvr_b2.ndjson")
         _run_tlc(ck, "refS_b2_sim", spec="Spec", deviations=dc.OPEN_DEVIATIONS + ["NoFinalFlightResend"], net_kinds=ALL_KINDS,
                  net_budget=2, invariants=INV, emit="EmitSched", tags=("SCHED",), sinks={"SCHED": sh2}, workers=1,
-                 simulate=2000, depth=140, timeout=900, server_hvr=True, anti_replay=["S"])
+                 simulate=2000, depth=140, timeout=900, server_hvr=True, anti_replay=["S"], buffers=["S"])
         ref_s += [dict(x, id=x["id"] + "-refS", peer="refS")
                   for x in dc.scenarios_from_sched(vlib.read_ndjson(sh2), TICK_MS, DEADLINE_MS, always_empty=False)
                   if len(x["ops"]) == 2][:400]
@@ -232,9 +232,26 @@ def run(tier):
     # trace validation of every recorded run
     accepted, rejections, tres = dc.validate_traces(ck, [o for o in outcomes if o["id"] not in ref_ids],
                                                      dc.OPEN_DEVIATIONS, tier)
+    # reference pairs: rustrtc's events are validated too; the reference has no hooks, so what the proxy delivered to
+    # it stands for its receive events and the specification (cookie exchange, anti-replay window, no final-flight
+    # resend) decides what it does with them. A mismatch there may be the reference differing from the model of it:
+    # always DRIFT.
+    ref_rejections = []
+    for kind, devs, kw in (("refS", dc.OPEN_DEVIATIONS + ["NoFinalFlightResend"],
+                            dict(server_hvr=True, anti_replay=["S"], buffers=["S"])),
+                           ("refC", dc.OPEN_DEVIATIONS, dict(anti_replay=["C"], buffers=["C"]))):
+        grp = [o for o in outcomes if o["scenario"].get("peer") == kind]
+        if grp:
+            a2, r2, t2 = dc.validate_traces(ck, grp, devs, f"{tier}_{kind}", **kw)
+            accepted += a2
+            ref_rejections += r2
+            tres += t2
     for r in tres:
         ck.add_tlc(r, "trace_validation")
     by_id = {o["id"]: o for o in outcomes}
+    for rj in ref_rejections:
+        ck.drift.append({"rule": rj["rule"], "peer": by_id[rj["id"]]["scenario"].get("peer"), "event": rj["event"],
+                         "id": rj["id"], "ops": by_id[rj["id"]]["scenario"].get("tlc_ops")})
     for rj in rejections:
         rec = {"id": rj["id"], "ops": by_id[rj["id"]]["scenario"].get("tlc_ops"), "rule": rj["rule"],
                "event": rj["event"], "before": rj["before"], "scenario": by_id[rj["id"]]["scenario"]}
@@ -245,6 +262,7 @@ def run(tier):
         else:
             ck.divergence({"sub": "dtls", "rule": rj["rule"], "ev": rj["event"]["ev"], "inst": rj["event"].get("inst")}, rec)
 
+    rejections = rejections + ref_rejections
     ck.cov["traces_validated_against_impl"] = len(outcomes) + accepted
     ck.cov["evaluations"] = len(outcomes)
     ck.cov["distinct_nontrivial"] = len({json.dumps([(op["dir"], op["msg"], op["ord"], op["kind"], op.get("arg")) for op in o["ops"] if op["fired"]])
@@ -262,7 +280,7 @@ def run(tier):
     ck.notes.append(f"rustrtc<->reference (webrtc-rs dtls 0.17.2) pairs: {len(ref_s)} schedules with the reference as server "
                     f"(HelloVerifyRequest exchange), {len(ref_c)} with the reference as client; {n_ref_excluded} schedules not run "
                     f"against it (they lose the reference's final flight, which it never resends, or a fragment on its way to "
-                    f"the reference, from which its reassembly does not recover); outcome comparison only")
+                    f"the reference, from which its reassembly does not recover); outcome comparison + validation of rustrtc's events")
     ck.assumptions += [
         "bounds: faults address ordinals 1..2 of each (direction, datagram label); quick: all single faults executed, "
         "pairs model-checked for drop/hold-1/split-3 on first transmissions and a seeded TLC -simulate sample of pairs executed; "
